@@ -4,12 +4,12 @@ Open Scope Z_scope.
 
 Ltac prj := cbn [side recvm sendm free_recv nxt maxl max_remote sent_max_remote alloc max_conc
   next_remote opened next_rep send_streams events pendq local_max rwin sent_max_data data_recvd swin
-  debt p_max_data p_msid p_msd p_stop p_reset seen slog panic g_closed g_credits g_expand
+  debt p_max_data p_msid p_msd p_stop p_reset seen slog panic g_closed g_credits g_expand g_fin g_reset
   set_side set_recvm set_sendm set_free_recv set_nxt set_maxl set_max_remote set_sent_max_remote
   set_alloc set_max_conc set_next_remote set_opened set_next_rep set_send_streams set_events
   set_pendq set_local_max set_rwin set_sent_max_data set_data_recvd set_swin set_debt
   set_p_max_data set_p_msid set_p_msd set_p_stop set_p_reset set_seen set_slog set_panic
-  set_g_closed set_g_credits set_g_expand set_panic_if] in *.
+  set_g_closed set_g_credits set_g_expand set_g_fin set_g_reset set_panic_if] in *.
 
 (** * Part A: over-limit frames are rejected and change nothing *)
 
